@@ -217,6 +217,10 @@ def gen_case(rng, size="small"):
             "chromosomes": None, "indexed": (not tags.get("unsorted")) and rng.random() < 0.25, "tags": tags}
     if rng.random() < 0.5 and nsamples > 1 or rng.random() < 0.2:
         case["sample"] = rng.choice(samples)
+    if rng.random() < 0.15:
+        # --chr-lengths FILE overrides the header's contig lengths (used for NG50 only)
+        names = [c for c in contigs if rng.random() < 0.7]
+        case["chr_lengths"] = {c: rng.choice([300, 1000, 5000, 40000]) for c in names}
     if rng.random() < 0.35:
         pool = list(chroms)
         if case["indexed"]:
@@ -477,11 +481,11 @@ def oracle_l1(only_snvs, groups, given, ids, out):
         if bl != s["bl"]:
             return False
         ext = {k: (a, b) for k, a, b, n in s["bl"]}
-        last = 0
+        last = None
         for c, st, en, i in out["gtf"]:
             if c != cid:
                 continue
-            if i not in ext or not (ext[i][0] <= st <= en <= ext[i][1] and last < st):
+            if i not in ext or not (ext[i][0] <= st <= en <= ext[i][1] and (last is None or last < st)):
                 return False
             last = en
     if out["all"] is not None:
